@@ -139,6 +139,10 @@ func optionPart(opt *Option) string {
 // options, the non-option arguments, and the context of the last argument. It
 // tolerates unknown options, assuming that they take optional arguments.
 func Complete(args []string, specs []*OptionSpec, cfg Config) ([]*Option, []string, Context) {
+	if len(args) == 0 {
+		// Nothing has been typed: the same as completing an empty argument.
+		args = []string{""}
+	}
 	opts, nonOptArgs, opt, stopOpt := parse(args[:len(args)-1], specs, cfg)
 
 	arg := args[len(args)-1]
